@@ -749,18 +749,22 @@ def mpc_psi0(z, prec, rnd=round_fast):
     # Euler-Maclaurin remainder sum
     z2 = mpc_square(z, wp)
     t = mpc_one
-    prev = mpc_zero
+    prev = finf
     k = 1
     eps = mpf_shift(fone, -wp+2)
     while 1:
         t = mpc_mul(t, z2, wp)
         bern = mpf_bernoulli(2*k, wp)
         term = mpc_mpf_div(bern, mpc_mul_int(t, 2*k, wp), wp)
-        s = mpc_sub(s, term, wp)
         szterm = mpc_abs(term, 10)
+        # The series is asymptotic: stop at the smallest term (as mpf_psi0
+        # does) instead of looping forever when it never reaches eps
+        if k > 2 and mpf_le(prev, szterm):
+            break
+        s = mpc_sub(s, term, wp)
         if k > 2 and mpf_le(szterm, eps):
             break
-        prev = term
+        prev = szterm
         k += 1
     return s
 
